@@ -1050,6 +1050,26 @@ fn fixed_scenarios(st: &mut Stats) {
             }),
         }
     }
+    // a namespace re-exported by a package and picked up with a from-import is the module it names, not the
+    // package's exports file - whose globals deliberately share their names with the module's
+    {
+        let mut f7 = Files::new();
+        f7.insert("lib/exports.sy".into(), "use shapes\n\nscale :: 10\ncount := 100\n\nbump :: fn do\n    count += 50\nend\n".into());
+        f7.insert("lib/shapes.sy".into(), "scale :: 2\ncount := 0\n\nbump :: fn do\n    count += 1\nend\n".into());
+        f7.insert("report.sy".into(), "from lib/ use shapes\nfrom lib/ use (shapes as forms)\n\ncheck :: fn do\n    print(shapes.scale)\n    shapes.count += 1\n    shapes.bump()\n    print(shapes.count)\n    print(forms.count)\nend\n".into());
+        f7.insert("main.sy".into(), "use report\nuse lib/\n\nstart :: fn do\n    report.check()\n    print(lib.shapes.scale)\n    print(lib.shapes.count)\n    print(lib.scale)\n    print(lib.count)\nend\n".into());
+        let expect: Vec<String> = ["2", "2", "2", "2", "2", "10", "100"].iter().map(|s| s.to_string()).collect();
+        st.count("fixed_scenarios_run");
+        match behaviour(&f7, "main.sy") {
+            Behaviour::Ran { prints, outcome, .. } if prints == expect && outcome == "ok" => st.count("fixed_scenarios_as_expected"),
+            other => st.violation(Violation {
+                signature: "modules:from-imported-namespace".into(),
+                hazard: None,
+                case: 0,
+                detail: J::obj().with("expected", J::Arr(expect.iter().map(|s| J::s(s.clone())).collect())).with("behaviour", J::s(format!("{:?}", other).chars().take(800).collect::<String>())).with("files", J::Obj(f7.iter().map(|(k, v)| (k.clone(), J::s(v.clone()))).collect())),
+            }),
+        }
+    }
     // two imports may not bind one name to different modules (the second one must not be dropped silently)
     files.insert("net/utils.sy".into(), "name :: \"net\"\n".into());
     files.insert("ui/utils.sy".into(), "name :: \"ui\"\n".into());
